@@ -7,6 +7,7 @@
 // Oracle: the process.  Returning or throwing something derived from std::exception is a pass; a sanitizer
 // report, a signal, abort/terminate kills the worker (the driver keys it from the report and restarts after the
 // journaled case); a non-std exception is reported here; a hang is caught by the driver's per-case watchdog.
+#include <map>
 #include "common/gkw.hpp"
 #include "common/gdeck.hpp"
 #include <opm/input/eclipse/EclipseState/EclipseState.hpp>
@@ -79,6 +80,49 @@ static std::string mutate(const std::vector<Seed>& corpus, const std::string& ba
     std::string r;
     for (auto& l : lines) { r += l; r += "\n"; }
     if (rng.chance(0.05)) { while (!r.empty() && r.back() == '\n') r.pop_back(); }
+    return r;
+}
+
+// Focused mode: ONE keyword block, chosen uniformly over the distinct keyword names of the text (so that a keyword occurring once
+// gets as much attention as COMPDAT), and one or two small edits of a data line in it - the kind of input that passes the parser and
+// reaches the range checks of the constructors: integer +-1 (off-by-one of an index / count), numeric tweak, item defaulted, item
+// dropped, item duplicated.
+static std::string mutateFocused(const std::string& base, Rng& rng, std::vector<std::string>& ops) {
+    auto lines = splitLines(base);
+    auto isKw = [&](const std::string& l) { return !l.empty() && std::isupper((unsigned char)l[0]) && l.find(' ') == std::string::npos && l.find('/') == std::string::npos && l.size() <= 8; };
+    std::map<std::string, std::vector<size_t>> where;
+    for (size_t i = 0; i < lines.size(); ++i) if (isKw(lines[i])) where[lines[i]].push_back(i);
+    if (where.empty()) return base;
+    auto it = where.begin(); std::advance(it, rng.below(where.size()));
+    const size_t a = it->second[rng.below(it->second.size())];
+    size_t b = a + 1; while (b < lines.size() && !isKw(lines[b])) ++b;
+    ops.push_back("focused");
+    if (b - a < 2) return base;
+    int nm = 1 + (int)rng.below(2);
+    for (int m = 0; m < nm; ++m) {
+        size_t i = a + 1 + rng.below(b - a - 1);
+        auto t = tokens(lines[i]);
+        if (t.empty()) continue;
+        // numeric tokens of the line
+        std::vector<size_t> ints, nums;
+        for (size_t k = 0; k < t.size(); ++k) {
+            char* e = nullptr; strtod(t[k].c_str(), &e);
+            if (e && *e == 0 && e != t[k].c_str()) { nums.push_back(k); if (t[k].find_first_not_of("-0123456789") == std::string::npos && t[k].size() < 10) ints.push_back(k); }
+        }
+        switch (rng.below(8)) {
+        case 0: case 1: case 2: if (!ints.empty()) { size_t k = ints[rng.below(ints.size())]; long v = atol(t[k].c_str()); t[k] = std::to_string(v + (rng.chance(0.5) ? 1 : -1)); ops.push_back("int-step"); break; }
+            /* fall through */
+        case 3: if (!nums.empty()) { size_t k = nums[rng.below(nums.size())]; const char* R[] = {"0", "-1", "1e20", "1e-20", "-0.5", "2147483647", "1000000"}; t[k] = R[rng.below(7)]; ops.push_back("number-replace"); break; }
+            /* fall through */
+        case 4: t[rng.below(t.size())] = "1*"; ops.push_back("item-defaulted"); break;
+        case 5: t.erase(t.begin() + rng.below(t.size())); ops.push_back("token-delete"); break;
+        case 6: { size_t k = rng.below(t.size()); t.insert(t.begin() + k, t[k]); ops.push_back("token-dup"); break; }
+        case 7: { size_t k = rng.below(t.size()); size_t k2 = rng.below(t.size()); std::swap(t[k], t[k2]); ops.push_back("token-swap"); break; }
+        }
+        lines[i] = join(t);
+    }
+    std::string r;
+    for (auto& l : lines) { r += l; r += "\n"; }
     return r;
 }
 
@@ -185,7 +229,7 @@ int main(int argc, char** argv) {
             base = s.text; origin = s.name;
         }
         std::vector<std::string> ops;
-        std::string txt = mutate(corpus, base, rng, ops);
+        std::string txt = rng.chance(0.4) ? mutateFocused(base, rng, ops) : mutate(corpus, base, rng, ops);
         bool lenient = rng.chance(0.5);
         bool viaInclude = rng.chance(0.15);
         std::string root;
